@@ -16,6 +16,7 @@ def cases(tier, seed, prop):
     out = [{'s': s, 'g': 'exh'} for s in gens.all_strings(gens.CSS_ABBR_ALPHA, L)]
     n = 20000 if tier == 'quick' else 150000
     out += [{'s': s, 'g': 'rand'} for s in gens.random_strings(rnd, FR, n, 1, 7)]
+    out.append({'s': 'w' + '1' * 5000, 'g': 'huge-number'}); out.append({'s': 'p' + '9' * 4400 + '-2', 'g': 'huge-number'})
     return out
 
 
